@@ -90,3 +90,51 @@ def check_weights_pipeline(ctx: Ctx, f: Func, wt: Term) -> tuple[bool, str, Term
     if cond[0] == "unary":
         return False, "weights are zeroed on the *successful* realizations (inverted polarity)", None
     return True, "", inner
+
+
+def dispatch_table(ctx: Ctx, impl: Func) -> dict:
+    """{constant: callee} for a method that selects an implementation by comparing a
+    value with constants: ``if x == "k": return self.h(...)`` (any nesting, elif
+    chains), ``match x: case "k": return self.h(...)`` (value and or-patterns),
+    or a dict of callables indexed by the value."""
+    X = ctx.X
+    out: dict = {}
+
+    def returned_callee(body):
+        for s in body:
+            for x in ast.walk(s):
+                if isinstance(x, ast.Return) and isinstance(x.value, ast.Call):
+                    rv = X.at(impl, x.value)
+                    hs = ctx.cg.resolve_fn(rv[1], impl) if rv[0] == "call" else []
+                    if hs:
+                        return hs[0]
+        return None
+
+    for n in ast.walk(impl.node):
+        if isinstance(n, ast.If):
+            tt = norm(X.at(impl, n.test))
+            keys = []
+            for s in subterms(tt) if tt[0] == "bool" else [tt]:
+                if s[0] == "cmp" and s[1] == "==" and (s[3][0] == "const" or s[2][0] == "const"):
+                    keys.append(s[3][1] if s[3][0] == "const" else s[2][1])
+                elif s[0] == "cmp" and s[1] == "in" and s[3][0] in ("tuple", "set", "list"):
+                    keys += [e[1] for e in s[3][1] if e[0] == "const"]
+            h = returned_callee(n.body) if keys else None
+            if h is not None:
+                for k in keys:
+                    out.setdefault(k, h)
+        elif isinstance(n, ast.Match):
+            for case in n.cases:
+                pats = case.pattern.patterns if isinstance(case.pattern, ast.MatchOr) else [case.pattern]
+                keys = [p.value.value for p in pats if isinstance(p, ast.MatchValue) and isinstance(p.value, ast.Constant)]
+                h = returned_callee(case.body) if keys and case.guard is None else None
+                if h is not None:
+                    for k in keys:
+                        out.setdefault(k, h)
+        elif isinstance(n, ast.Dict) and n.keys and all(isinstance(k, ast.Constant) for k in n.keys):
+            for k, v in zip(n.keys, n.values):
+                vt = X.at(impl, v)
+                hs = ctx.cg.resolve_fn(vt, impl)
+                if hs:
+                    out.setdefault(k.value, hs[0])
+    return out
